@@ -75,6 +75,17 @@ class installed:
 
     def __enter__(self):
         self.saved = []
+        import torch
+        from . import ops
+        self._randint = torch.randint
+
+        def randint(*a, **k):
+            # torch's C++ argument parser rejects symbolic scalars before the TorchFunctionMode sees the call
+            from .core import Ctx
+            if Ctx.cur is not None:
+                return ops.HANDLERS["randint"](self._randint, a, k)
+            return self._randint(*a, **k)
+        torch.randint = randint
         for m in list(sys.modules.values()):
             if m is None or not getattr(m, "__name__", "").startswith("nflows"):
                 continue
@@ -85,5 +96,7 @@ class installed:
         return self
 
     def __exit__(self, *a):
+        import torch
+        torch.randint = self._randint
         for m, k, v in self.saved:
             setattr(m, k, v)
